@@ -118,7 +118,7 @@ PROPS = {
         assumptions=["compiled third-party objects (regexp.Regexp, jp.Expr) are read-only when used"],
     ),
     "C17": dict(
-        proof_modules=["KsVerif.Proofs.C17"],
+        proof_modules=["KsVerif.Proofs.C17", "KsVerif.Proofs.C17Spec"],
         families=["kfl.macro"],
         impl_timeout=150,
         rule="kfl.macro: macro names inside terminated and unterminated literals followed by 5-200 more characters (the look-ahead "
